@@ -138,7 +138,52 @@ func genCase(t *rapid.T) Case {
 	if rapid.IntRange(0, 2).Draw(t, "nooff") == 0 {
 		off = pt{}
 	}
-	switch rapid.SampledFrom([]string{"polygons", "polygons", "polygons", "lines", "points", "zero-area", "ring", "far-members", "thin-frame"}).Draw(t, "mode") {
+	switch rapid.SampledFrom([]string{"polygons", "polygons", "polygons", "lines", "points", "zero-area", "ring", "far-members", "thin-frame", "needle"}).Draw(t, "mode") {
+	case "needle":
+		// direction only: a ring whose highest vertex is the tip of a needle with flanks
+		// f1 = (p, q) and f2 = f1 + (d1, d2), p*d2 - q*d1 = 1 (Bezout): the turn at the tip
+		// is one grid unit against products of up to 2^62, whatever the size of the ring,
+		// so the direction hangs on the last bit of an exact determinant. The body lies on
+		// the side that keeps the ring simple (proved in DESIGN.md 8.7 round q); mirrored
+		// half of the time.
+		c.Mode, c.Class = "direction", "needle"
+		k := int64(1) << uint(rapid.IntRange(4, 30).Draw(t, "nk"))
+		var pp, qq, d1, d2 int64
+		for {
+			pp, qq = rapid.Int64Range(k, 2*k).Draw(t, "np"), rapid.Int64Range(k, 2*k).Draw(t, "nq")
+			// extended Euclid: pp*v + qq*u = g
+			r0, r1, s0, s1, t0, t1 := pp, qq, int64(1), int64(0), int64(0), int64(1)
+			for r1 != 0 {
+				q := r0 / r1
+				r0, r1, s0, s1, t0, t1 = r1, r0-q*r1, s1, s0-q*s1, t1, t0-q*t1
+			}
+			if r0 != 1 {
+				continue
+			}
+			// pp*s0 + qq*t0 = 1: d2 = s0, d1 = -t0, moved into 1 <= d1 <= pp by multiples of (pp, qq)
+			d2, d1 = s0, -t0
+			for d1 < 1 {
+				d1, d2 = d1+pp, d2+qq
+			}
+			for d1 > pp {
+				d1, d2 = d1-pp, d2-qq
+			}
+			if d2 >= 0 && pp*d2-qq*d1 == 1 {
+				break
+			}
+		}
+		w := rapid.Int64Range(1, 2*k).Draw(t, "nw")
+		mx := int64(1)
+		if rapid.Bool().Draw(t, "nmirror") {
+			mx = -1
+		}
+		if rapid.Bool().Draw(t, "nbigoff") {
+			off = pt{rapid.Int64Range(-1<<33, 1<<33).Draw(t, "noffx"), rapid.Int64Range(-1<<33, 1<<33).Draw(t, "noffy")}
+		}
+		at := func(dx, dy int64) pt { return pt{off[0] + mx*dx, off[1] + dy} }
+		ring := []pt{at(-pp, -qq), at(0, 0), at(-pp-d1, -qq-d2), at(-pp-d1-w, -qq-d2), at(-pp-d1-w, -1), at(-pp, -qq)}
+		c.Polys = [][][]pt{{decorate(t, ring, "needle")}}
+		return c
 	case "points":
 		c.Mode = "points"
 		n := rapid.IntRange(1, 50).Draw(t, "n")
@@ -716,6 +761,41 @@ func propRings(c Case, l geom.Layout) error {
 			if got := xy.IsRingCounterClockwise(l, flat); got != (a2.Sign() > 0) {
 				return fmt.Errorf("IsRingCounterClockwise(%v) = %v, exact signed area %v", r, got, exact.Float(a2)/2)
 			}
+			// the direction of a ring does not depend on the unit: the same ring with every
+			// x and y times a power of two (as far as every ordinate stays a normal number,
+			// so that none loses a bit), down to where products of differences, and the
+			// rounding errors of such products, leave the range of float64
+			exps := []int{-960, -800, -560, -548, -540, -532, -524, -516, -500, -270, 300, 520, 900}
+			if c.Mode == "direction" {
+				// every unit in the band where products of differences of up to 31 bits are
+				// still normal numbers and their rounding errors no longer are
+				for e := -575; e <= -495; e++ {
+					exps = append(exps, e)
+				}
+			}
+			for _, e := range exps {
+				keep := curExp
+				curExp = e
+				sflat := flatOf(r, l)
+				curExp = keep
+				ok := true
+				for i := 0; i < len(sflat); i += l.Stride() {
+					for _, v := range sflat[i : i+2] {
+						if a := math.Abs(v); a != 0 && (a < 0x1p-1022 || math.IsInf(a, 0)) {
+							ok = false
+						}
+					}
+				}
+				if !ok {
+					continue
+				}
+				if got := xy.IsRingCounterClockwise(l, sflat); got != (a2.Sign() > 0) {
+					return fmt.Errorf("IsRingCounterClockwise(%v with every x, y times 2^%d) = %v, exact signed area %v", r, e, got, exact.Float(a2)/2)
+				}
+			}
+			if c.Mode == "direction" {
+				continue
+			}
 			want := exact.Quo(exact.Neg(a2), big.NewRat(2, 1))
 			got := math.Ldexp(xy.SignedArea(l, flat), -2*curExp)
 			// every intermediate of the shoelace sum relative to the first x is exact on these inputs
@@ -749,6 +829,29 @@ func prop(c Case) error {
 			return err
 		}
 		return propRings(c, l)
+	case "direction":
+		// the oracle guards itself: the constructed ring is simple (exactly)
+		for _, p := range c.Polys {
+			for _, r := range p {
+				var v []exact.P2
+				for i, q := range r[:len(r)-1] {
+					if i == 0 || q != r[i-1] {
+						v = append(v, ep(q))
+					}
+				}
+				n := len(v)
+				for i := 0; i < n; i++ {
+					for j := i + 1; j < n; j++ {
+						kind, pts := exact.SegSeg(v[i], v[(i+1)%n], v[j], v[(j+1)%n])
+						adjacent := j == i+1 || (i == 0 && j == n-1)
+						if (!adjacent && kind != exact.NoInt) || (adjacent && (kind != exact.PointInt || len(pts) != 1)) {
+							panic(fmt.Sprintf("harness: the needle ring %v is not simple (edges %d and %d)", r, i, j))
+						}
+					}
+				}
+			}
+		}
+		return propRings(c, l)
 	}
 	return fmt.Errorf("bad mode %q", c.Mode)
 }
@@ -771,6 +874,8 @@ func classify(c Case) ([]string, bool) {
 		cl = append(cl, "long(>=60 vertices)")
 	}
 	switch c.Mode {
+	case "direction":
+		return cl, true
 	case "polygons":
 		holes, cw := 0, 0
 		for _, p := range c.Polys {
